@@ -255,6 +255,59 @@ def has_base_cycle(nodes):
     return False
 
 
+def check_doc(doc, kind, opts):
+    """bases first / each class once / module executes, for a hand-written document"""
+    g = e2e.generate(json.dumps(doc), kind=kind, **opts)
+    if g.timeout:
+        return "generate() does not terminate"
+    if not g.ok:
+        return None
+    err = e2e.parses(g.text)
+    if err:
+        return f"output does not parse: {err}"
+    tree = ast.parse(g.text)
+    classes = [n for n in tree.body if isinstance(n, ast.ClassDef)]
+    names = [c.name for c in classes]
+    if len(set(names)) != len(names):
+        return f"a class is emitted twice: {names}"
+    pos = {c.name: i for i, c in enumerate(classes)}
+    for c in classes:
+        for b in c.bases:
+            for x in ast.walk(b):
+                if isinstance(x, ast.Name) and x.id in pos and pos[x.id] >= pos[c.name] and x.id != c.name:
+                    return f"class {c.name} is emitted before its base class {x.id}"
+    if kind in ("pydantic_v2.BaseModel", "pydantic.BaseModel", "dataclasses.dataclass", "typing.TypedDict"):
+        m, err = e2e.load_module(g.text, kind)
+        e2e.unload(m)
+        if err:
+            return f"module does not execute: {err}"
+    return None
+
+
+def same_name_duplicates():
+    """the same object schema under the same name in two containers (definitions and a part only reached by $ref, parsed last), a
+    model that inherits from / refers to one copy, the root referring to the copies in both orders"""
+    foo = {"type": "object", "properties": {"a": {"type": "integer"}}}
+    for container in ("extras", "components", "$defs"):
+        for kind_of_use in ("base", "member", "items"):
+            for first in ("other-copy", "user"):
+                for third in (False, True):
+                    if kind_of_use == "base":
+                        bar = {"allOf": [{"$ref": "#/definitions/Foo"}, {"type": "object", "properties": {"b": {"type": "integer"}}}]}
+                    elif kind_of_use == "member":
+                        bar = {"type": "object", "properties": {"f": {"$ref": "#/definitions/Foo"}, "b": {"type": "integer"}}}
+                    else:
+                        bar = {"type": "object", "properties": {"fs": {"type": "array", "items": {"$ref": "#/definitions/Foo"}}}}
+                    props = {"zero": {"$ref": f"#/{container}/Foo"}, "bar": {"$ref": "#/definitions/Bar"}}
+                    if first == "user":
+                        props = dict(reversed(list(props.items())))
+                    defs = {"Foo": foo, "Bar": bar}
+                    if third:
+                        defs["Baz"] = {"allOf": [{"$ref": "#/definitions/Bar"}], "type": "object", "properties": {"c": {"type": "string"}}}
+                        props["baz"] = {"$ref": "#/definitions/Baz"}
+                    yield {"title": "Top", "type": "object", "properties": props, "definitions": defs, container: {"Foo": json.loads(json.dumps(foo))}}
+
+
 def falsify(ctx):
     rng = ctx.rng("fals")
     cases = []
@@ -330,16 +383,35 @@ def falsify(ctx):
             if seen <= 6:
                 ctx.violation(f"e2e:{enc_nodes(nodes)}:{twins}:{kind}:{sorted(opts)}", f"graph {enc_nodes(nodes)} twins {twins} ({kind}, {opts}): {why}",
                               {"nodes": nodes, "twins": twins, "kind": kind, "opts": opts, "why": why})
+    for i, doc in enumerate(same_name_duplicates()):
+        for kind in (["pydantic_v2.BaseModel", "pydantic.BaseModel", "dataclasses.dataclass", "typing.TypedDict"] if ctx.thorough
+                     else [["pydantic_v2.BaseModel", "pydantic.BaseModel", "dataclasses.dataclass", "typing.TypedDict"][i % 4]]):
+            for opts in ({}, {"reuse_model": True}):
+                ctx.count("eval_e2e")
+                ctx.count("duplicate_cases")
+                ctx.nontrivial("dup:" + json.dumps(doc, sort_keys=True) + kind + json.dumps(opts))
+                why = check_doc(doc, kind, opts)
+                if why:
+                    seen += 1
+                    if seen <= 8:
+                        ctx.violation(f"doc:{kind}:{sorted(opts)}:{json.dumps(doc, sort_keys=True)[:300]}", f"same-named identical schemas ({kind}, {opts}): {why}",
+                                      {"doc": doc, "kind": kind, "opts": opts, "why": why})
     ctx.sample({"graph": enc_nodes(cases[-1])})
 
 
 def replay_finding(ctx, f):
     r = f["replay"]
+    if "doc" in r:
+        return check_doc(r["doc"], r["kind"], r["opts"]) is not None
     return check_graph(r["nodes"], r["kind"], r["opts"], [tuple(t) for t in r.get("twins", [])]) is not None
 
 
 def replay(ctx, payload):
     r = payload.get("replay", payload)
+    if "doc" in r:
+        why = check_doc(r["doc"], r["kind"], r["opts"])
+        print("replay:", why or "no violation")
+        return 1 if why else 0
     if "nodes" not in r:
         print(json.dumps(payload, indent=1)[:3000])
         return 0
